@@ -108,6 +108,10 @@ inductive Cmd
   | check (s : String) | clear (s : String) | left (s : String)
   | expect (s : String) (n : Nat) (fn : String) (segs : List ESeg)
   | call (s : String) (fn : String) (segs : List Seg) (r : Bool)
+  | plugin                 -- the case runs 2..5 scripted tests in a registry with MockSupportPlugin installed
+  | test (name : String)   -- a scripted test begins (its body = the following scenario lines)
+  | failPlain              -- a plain FAIL in the test body
+  | endtest                -- teardown(): the body is over; the plugin's postTestAction follows
   | skip
 deriving Repr, Inhabited
 
@@ -121,6 +125,10 @@ def splitR : List CSeg → Option (List Seg × Bool)
 def parseCmdWith (pv : String → String → Option Val) (ws : List String) : Option Cmd :=
   match ws with
   | ["skip"] => some .skip
+  | ["plugin"] => some .plugin
+  | ["test", n] => some (.test n)
+  | ["fail"] => some .failPlain
+  | ["endtest"] => some .endtest
   | ["strict", s] => some (.strict (scopeName s))
   | ["ioc", s] => some (.ioc (scopeName s))
   | ["enable", s] => some (.enable (scopeName s))
@@ -150,6 +158,8 @@ def bufInit : List UInt8 := List.replicate 8 0xEE
 structure DState where
   w : World := World.init
   stopped : Bool := false
+  plugin : Bool := false          -- plugin mode: a failure ends the test body, not the case
+  testFailed : Bool := false      -- the current scripted test has failed
 deriving Inhabited
 
 def failLine (m : String) : String := "fail " ++ m
@@ -159,10 +169,23 @@ def retLine : Option Val → String
   | none => "ret none"
   | some v => "ret " ++ renderVal v
 
-def stop (w : World) (m : String) : DState × List String := ({ w := w, stopped := true }, [failLine m])
+/-- a mock failure in direct mode stops the scenario; in plugin mode the default reporter fails
+    the current test, which leaves its body -/
+def stop (d : DState) (w : World) (m : String) : DState × List String :=
+  if d.plugin then ({ d with w := w, testFailed := true }, [failLine m])
+  else ({ d with w := w, stopped := true }, [failLine m])
 
 def modelCmd (d : DState) : Cmd → DState × List String
   | .skip => (d, [])
+  | .plugin => ({ w := World.init, plugin := true }, [])
+  | .test _ => ({ d with testFailed := false }, [])
+  | .failPlain => ({ d with testFailed := true }, [failLine "scripted"])
+  | .endtest =>
+    -- MockSupportPlugin::postTestAction (Model: `pluginPost`)
+    match pluginPost { w := d.w, failed := d.testFailed, msgs := [] } with
+    | (fs, w) =>
+      ({ d with w := w, testFailed := false },
+       fs.map failLine ++ [if d.testFailed || !fs.isEmpty then "verdict fail" else "verdict pass"])
   | .strict s => ({ d with w := d.w.strictOrder s }, [])
   | .ioc s => ({ d with w := d.w.setAll s (fun sc => { sc with ioc := true }) }, [])
   | .enable s => ({ d with w := d.w.setAll s (fun sc => { sc with enabled := true }) }, [])
@@ -170,24 +193,24 @@ def modelCmd (d : DState) : Cmd → DState × List String
   | .clear s => ({ d with w := d.w.clear s }, [])
   | .check s =>
     match d.w.check s with
-    | (w, some f) => stop w f
+    | (w, some f) => stop d w f
     | (w, none) => ({ d with w := w }, [])
   | .left s =>
     match d.w.left s with
-    | (w, some f, _) => stop w f
+    | (w, some f, _) => stop d w f
     | (w, none, b) => ({ d with w := w }, [if b then "left 1" else "left 0"])
   | .expect s n fn segs => ({ d with w := d.w.expectN s n fn segs }, [])
   | .call s fn segs r =>
     let o := d.w.call s fn segs bufInit
     match o.fail with
-    | some f => stop o.w f
+    | some f => stop d o.w f
     | none =>
       if o.ignored then
         let outs := segs.filterMap (fun sg => match sg with | .out n => some (n, bufInit) | _ => none)
         ({ d with w := o.w }, (if r then ["ret none"] else []) ++ outLines outs)
       else if r then
         match o.w.returnValue s with
-        | (w, some f, _) => stop w f
+        | (w, some f, _) => stop d w f
         | (w, none, v) => ({ d with w := w }, [retLine v] ++ outLines (w.bufs s))
       else ({ d with w := o.w }, outLines (o.w.bufs s))
 
@@ -303,6 +326,10 @@ def noteKinds (kinds : List (String × Nat)) (ps : List (String × Val)) : List 
 
 def preCmd (p : Pre) : Cmd → Pre
   | .skip => { p with ok := false }
+  | .plugin => p
+  | .test _ => { p with st := {} }          -- the plugin has cleared the mock
+  | .failPlain => p
+  | .endtest => p
   | .strict s =>
     let st := p.st.touch s
     let sc := st.get s
@@ -485,6 +512,10 @@ def oExpect (st0 : OState) (s : String) (n : Nat) (fn : String) (segs : List ESe
 
 def oCmd (st : OState) : Cmd → OState × Want
   | .skip => (st, {})
+  | .plugin => (st, {})
+  | .test _ => ({}, {})
+  | .failPlain => (st, { fail := some "scripted" })
+  | .endtest => (st, {})
   | .strict s => let st := st.touch s; (st.put { st.get s with strict := true }, {})
   | .ioc s =>
     let st := st.touch s
@@ -561,20 +592,45 @@ def judgeOp (w : Want) (obs : List (List String)) : Except String Bool :=
         if obsLeft obs != some (if b then "1" else "0") then .error s!"expectedCallsLeft is wrong (units left: {b})" else .ok false
       | none, none => .ok false
 
+def obsVerdict (obs : List (List String)) : Option String :=
+  (obs.find? (fun l => l.head? == some "verdict")).map (fun l => " ".intercalate (l.drop 1))
+
+/-- the end of a scripted test run with `MockSupportPlugin`: a test that has not failed itself gets
+    the textbook verdict of its own scenario followed by `checkExpectations` — whatever earlier
+    tests did —, and its first failure is that diagnosis; a test that has failed must be failed -/
+def judgeEndTest (st : OState) (tfailed : Bool) (obs : List (List String)) : Except String Unit :=
+  if tfailed then
+    if obsVerdict obs == some "fail" then .ok () else .error "the test failed in its body but the run reports it as passed"
+  else
+    match (oCmd st (.check "")).2.fail, obsFail obs with
+    | some d, some g =>
+      if d != g then .error s!"wrong diagnosis at the end of the test: reported `{g}`, the first deviation is `{d}`"
+      else if obsVerdict obs == some "fail" then .ok () else .error "a failure was reported but the test passed"
+    | some d, none => .error s!"the test passed; its scenario deviates: `{d}` (expectations are checked at the end of every test that has not failed)"
+    | none, some g => .error s!"failure reported at the end of the test although nothing deviates: `{g}`"
+    | none, none => if obsVerdict obs == some "pass" then .ok () else .error "the test failed although nothing deviates"
+
 def run (ops : List Proto.Op) : Option String :=
   let cmds := ops.map (fun o => (parseCmdOracle o.op).getD .skip)
   if !judged cmds then none
   else
-    let rec go (st : OState) (i : Nat) : List Proto.Op → Option String
+    let plugin := cmds.head? matches some .plugin
+    let rec go (st : OState) (tfailed : Bool) (i : Nat) : List Proto.Op → Option String
       | [] => none
       | o :: rest =>
-        match oCmd st ((parseCmdOracle o.op).getD .skip) with
-        | (st1, w) =>
-          match judgeOp w o.obs with
-          | .error e => some s!"op#{i} {" ".intercalate o.op}: {e}"
-          | .ok true => none
-          | .ok false => go st1 (i + 1) rest
-    go {} 0 ops
+        match (parseCmdOracle o.op).getD .skip with
+        | .endtest =>
+          match judgeEndTest st tfailed o.obs with
+          | .error e => some s!"op#{i} endtest: {e}"
+          | .ok () => go {} false (i + 1) rest
+        | c =>
+          match oCmd st c with
+          | (st1, w) =>
+            match judgeOp w o.obs with
+            | .error e => some s!"op#{i} {" ".intercalate o.op}: {e}"
+            | .ok true => if plugin then go st1 true (i + 1) rest else none
+            | .ok false => go st1 (match c with | .test _ => false | _ => tfailed) (i + 1) rest
+    go {} false 0 ops
 
 end Oracle
 
